@@ -69,11 +69,18 @@ type inst struct {
 	// local-deletion policy: keys the background checker removed on this
 	// instance, with the log position at which the removal was observed
 	taint map[string]int
+	// known finding batch-abort-on-error: requests whose batched write was dropped on this instance
+	flushAt    []int // log positions at which this instance wrote its HyperLogLog cache back
+	aborted    map[int]bool
+	abortTaint map[string]int
 	ckpt  int // log position of the newest checkpoint, -1 = none
 	// bookkeeping for evidence
 	firstApplyAt int64
 	applyAt      []int64 // fake time at which request i was (first) applied
+	lastApplyAt  []int64 // fake time at which request i was last applied (replay after restore)
 	dead         string
+	panicFrom    int
+	panicTo      int
 }
 
 type sim struct {
@@ -97,6 +104,9 @@ type sim struct {
 	maxOffset       int64
 	partitionsDiffer bool
 	hllKeys         map[string]bool
+	memType         int
+	syncer          bool // the log is of the cluster-syncer type (entries written by the log syncer of another cluster)
+	ablateReplay    bool
 	findings        []finding
 	firstPfadd      map[string]int
 	firstOther      map[string]int
@@ -126,7 +136,29 @@ func pick(t *core.Tape, vals ...int) int { return vals[t.Choose(len(vals))] }
 
 func Run(c *core.RunCtx) {
 	quiet()
-	s := &sim{c: c, t: c.Tape, hllKeys: map[string]bool{}}
+	s := runOnce(c, false)
+	// Attribution by ablation (known finding syncer-conflict-check-live-only):
+	// in a run whose log is of the cluster-syncer type, re-execute the same
+	// tape with the replay flag forced to false everywhere; when that run has
+	// no unknown difference, the differences of the first pass are exactly the
+	// consequence of "conflict pre-check only when applied live".
+	if s.syncer && s.unknown() {
+		c2 := core.NewRunCtx(c.T, c.Prop, c.Tier, core.ReplayTape(c.Tape.Values()))
+		s2 := runOnce(c2, true)
+		c.Count("ablation_reruns", 1)
+		if !s2.unknown() {
+			for i := range s.findings {
+				if s.findings[i].key == "" {
+					s.findings[i].key = keySyncer
+				}
+			}
+		}
+	}
+	s.emit()
+}
+
+func runOnce(c *core.RunCtx, ablateReplay bool) *sim {
+	s := &sim{c: c, t: c.Tape, hllKeys: map[string]bool{}, ablateReplay: ablateReplay}
 	func() {
 		defer func() {
 			if e := recover(); e != nil {
@@ -142,6 +174,7 @@ func Run(c *core.RunCtx) {
 			s.bubble()
 		})
 	}()
+	return s
 }
 
 func (s *sim) drawCfg() {
@@ -159,7 +192,19 @@ func (s *sim) drawCfg() {
 		s.policy = common.WaitCompact
 	}
 	s.ntable = pick(t, 1, 2)
-	engine.VerifSetMemType(pick(t, engine.VerifMemRadix, engine.VerifMemRadix, engine.VerifMemRadix, engine.VerifMemBtree, engine.VerifMemSkiplist))
+	s.syncer = t.Bool(120)
+	// mem engine variant (process global, one per run). The default (radix)
+	// variant cannot be used under local deletion: its write batch takes the
+	// store-wide writer mutex at the first operation and the expiry checker
+	// fills one write batch per data type before committing any of them, so it
+	// blocks itself forever as soon as keys of two types expire in one pass
+	// (engine defect outside C07; it would hang the run).
+	mt := pick(t, engine.VerifMemRadix, engine.VerifMemRadix, engine.VerifMemRadix, engine.VerifMemBtree, engine.VerifMemSkiplist)
+	if s.policy == common.LocalDeletion && mt == engine.VerifMemRadix {
+		mt = pick(t, engine.VerifMemBtree, engine.VerifMemSkiplist)
+	}
+	engine.VerifSetMemType(mt)
+	s.memType = mt
 	g := &gen{c: c, t: t, ntable: s.ntable}
 	g.w = make([]int, 9)
 	for {
@@ -180,13 +225,14 @@ func (s *sim) drawCfg() {
 		}
 	}
 	g.ttlPm = pick(t, 150, 0, 300, 450)
-	g.badPm = pick(t, 0, 40, 150)
+	g.badPm = pick(t, 0, 0, 30, 100)
+	g.burstPm = pick(t, 60, 0, 150, 300)
 	g.hot = t.Choose(len(keyPool))
 	off := []int64{0, 5, 3600, 864000, -3600}[t.Choose(5)] * int64(time.Second)
 	g.ts = bubbleEpoch + off + int64(t.Choose(1000000000))
 	s.g = g
 	for i := 0; i < s.k; i++ {
-		in := &inst{idx: i, replies: map[int]string{}, taint: map[string]int{}, ckpt: -1, w: newRecWait(), stop: make(chan struct{})}
+		in := &inst{idx: i, replies: map[int]string{}, taint: map[string]int{}, aborted: map[int]bool{}, abortTaint: map[string]int{}, ckpt: -1, w: newRecWait(), stop: make(chan struct{})}
 		ic := &in.cfg
 		ic.eng = []string{"mem", "pebble"}[t.Weighted([]int{3, 2})]
 		ic.maxReqPerEnt = pick(t, 1, 1, 3, 6)
@@ -198,10 +244,17 @@ func (s *sim) drawCfg() {
 		if t.Bool(250) {
 			ic.replayUntil = t.Choose(s.n + 1)
 		}
+		if s.syncer {
+			// the log syncer forwards the source cluster's raft entries one by
+			// one: single-request lists with a list-level id (which makes the
+			// state machine commit the write batch at the end of every entry)
+			ic.maxReqPerEnt = 1
+		}
 		in.applyAt = make([]int64, s.n)
+		in.lastApplyAt = make([]int64, s.n)
 		s.ins = append(s.ins, in)
 	}
-	s.lg("cfg", "n=%d k=%d policy=%d ntable=%d w=%v ttlPm=%d badPm=%d hot=%d base=%d", s.n, s.k, s.policy, s.ntable, g.w, g.ttlPm, g.badPm, g.hot, g.ts)
+	s.lg("cfg", "n=%d k=%d syncer=%v policy=%d mem=%d ntable=%d w=%v ttlPm=%d badPm=%d burstPm=%d hot=%d base=%d", s.n, s.k, s.syncer, s.policy, s.memType, s.ntable, g.w, g.ttlPm, g.badPm, g.burstPm, g.hot, g.ts)
 	for _, in := range s.ins {
 		s.lg("icfg", "%d %+v", in.idx, in.cfg)
 	}
@@ -315,7 +368,7 @@ func (s *sim) bubble() {
 				in = todo[s.t.Choose(len(todo))]
 				cur = in.idx
 			}
-			switch s.t.Weighted([]int{60, 12, 4, 4, 3}) {
+			switch s.t.Weighted([]int{60, 12, 4, 4, 3, 2}) {
 			case 0:
 				s.stepApply(in, target)
 			case 1:
@@ -326,6 +379,15 @@ func (s *sim) bubble() {
 				s.stepRestore(in)
 			case 4:
 				s.stepReopen(in)
+			case 5:
+				// a client reads from this replica only (GET, PFCOUNT, HGETALL ...): must not matter either
+				if in.sm != nil && in.dead == "" {
+					logicalDump(in.st, s.ntable)
+					// PFCOUNT normalises the cached sketch in place (known finding hll-dirty-cache)
+					in.flushAt = append(in.flushAt, in.applied)
+					s.c.Probe("reads_on_one_replica")
+					s.lg("read", "%d pos=%d", in.idx, in.applied)
+				}
 			}
 		}
 		if s.t.Bool(300) {
@@ -340,7 +402,6 @@ func (s *sim) bubble() {
 		s.compareReplies()
 	}
 	s.finish()
-	s.emit()
 }
 
 // ensure creates the instance's state machine at the current fake instant.
@@ -397,6 +458,12 @@ func (s *sim) buildList(in *inst, e entry) node.BatchInternalRaftRequest {
 		rl.Timestamp = s.log[e.from].ts
 	}
 	rl.ReqId = e.reqID
+	if s.syncer {
+		rl.Type = node.FromClusterSyncer
+		rl.OrigTerm = 1
+		rl.OrigIndex = uint64(e.from + 1)
+		rl.OrigCluster = "src"
+	}
 	return rl
 }
 
@@ -415,7 +482,7 @@ func (s *sim) nextEntry(in *inst, from, limit int) entry {
 	if single {
 		r := s.log[from]
 		// the v2 form is only produced for commands whose first argument is the only key
-		if r.args != nil && len(r.keys) == 1 && t.Bool(in.cfg.v2Pm) {
+		if r.args != nil && len(r.keys) == 1 && t.Bool(in.cfg.v2Pm) && !s.syncer {
 			e.v2 = true
 		}
 		if !e.v2 && t.Bool(in.cfg.listTsPm/4) {
@@ -432,7 +499,8 @@ func (s *sim) nextEntry(in *inst, from, limit int) entry {
 			e.listTs = true
 		}
 	}
-	if !e.v2 && t.Bool(in.cfg.reqIDPm) {
+	if !e.v2 && (t.Bool(in.cfg.reqIDPm) || s.syncer) {
+		// ProposeRawAsyncFromSyncer always sets a list-level id
 		e.reqID = uint64(1<<40) + uint64(in.nent)
 	}
 	return e
@@ -442,9 +510,11 @@ func (s *sim) nextEntry(in *inst, from, limit int) entry {
 // of one Ready, CommitBatch at the end.
 func (s *sim) applyCall(in *inst, ents []entry, replay bool) {
 	c := s.c
+	curFrom, curTo := 0, 0
 	defer func() {
 		if e := recover(); e != nil {
 			in.dead = fmt.Sprintf("panic in apply: %v", e)
+			in.panicFrom, in.panicTo = curFrom, curTo
 			s.lg("apply.panic", "%d %v", in.idx, e)
 			s.c.Probe("apply_panic")
 			// the process would be gone; release the write batch the handler left open so that Close can finish
@@ -455,12 +525,23 @@ func (s *sim) applyCall(in *inst, ents []entry, replay bool) {
 		}
 	}()
 	batch := in.sm.GetBatchOperator()
-	open := false // probe bookkeeping only
+	_ = curTo
+	// mirror of kvbatchOperator (which requests share one write batch): used
+	// for probes and for the ground truth of known finding batch-abort-on-error
+	var open []int
 	seen := map[string]bool{}
 	nreq := 0
+	cut := func() {
+		open = nil
+		seen = map[string]bool{}
+	}
 	for _, e := range ents {
+		curFrom, curTo = e.from, e.to
 		in.nent++
 		isReplaying := replay || e.to <= in.cfg.replayUntil
+		if s.ablateReplay {
+			isReplaying = false
+		}
 		rl := s.buildList(in, e)
 		for i := e.from; i < e.to; i++ {
 			r := s.log[i]
@@ -474,43 +555,62 @@ func (s *sim) applyCall(in *inst, ents []entry, replay bool) {
 			if r.hll {
 				s.hllKeys[string(r.args[1])] = true
 			}
-			// probes
-			if batchable(r) {
-				pk := string(r.args[1])
-				if open && seen[pk] {
-					c.Probe("same_key_twice_in_one_batch")
-					seen = map[string]bool{}
-				}
-				if open {
+			if batchable(r) && len(open) < 100 && !seen[string(r.args[1])] {
+				if len(open) > 0 {
 					c.Probe("batch_ge2")
 					s.batchedCalls++
 				}
-				open = true
-				seen[pk] = true
+				if r.bad {
+					// the handler fails: AbortBatchForError drops the whole open batch
+					if len(open) > 0 {
+						c.Probe("batch_aborted_by_failing_command")
+					}
+					for _, x := range open {
+						in.aborted[x] = true
+						for _, k := range s.log[x].keys {
+							if _, ok := in.abortTaint[k]; !ok {
+								in.abortTaint[k] = x
+							}
+						}
+					}
+					cut()
+				} else {
+					open = append(open, i)
+					seen[string(r.args[1])] = true
+				}
 			} else {
-				if open {
+				if batchable(r) && seen[string(r.args[1])] {
+					c.Probe("same_key_twice_in_one_batch")
+				} else if len(open) > 0 {
 					c.Probe("batch_cut_by_nonbatchable")
 				}
-				open = false
-				seen = map[string]bool{}
+				cut()
 			}
 			if in.applyAt[i] == 0 {
 				in.applyAt[i] = s.now()
 			}
+			in.lastApplyAt[i] = s.now()
 		}
 		if e.reqID != 0 {
 			in.w.Register(e.reqID)
-			open = false
-			seen = map[string]bool{}
 		}
 		_, err := in.sm.ApplyRaftRequest(isReplaying, batch, rl, 1, in.nent, in.stop)
 		if err != nil {
 			s.lg("apply.err", "%d %v", in.idx, err)
 		}
 		s.c.Events += int64(e.to - e.from)
+		if e.reqID != 0 {
+			cut() // ApplyRaftRequest commits the batch at the end of such an entry
+		}
 	}
 	if batch != nil {
 		batch.CommitBatch()
+	}
+	if traceOn {
+		for _, tb := range tables[:s.ntable] {
+			n, _ := in.st.GetTableKeyCount([]byte(tb))
+			fmt.Fprintf(core.Stdout, "  count %d %s=%d after [%d,%d)\n", in.idx, tb, n, ents[0].from, ents[len(ents)-1].to)
+		}
 	}
 	// collect replies
 	for _, e := range ents {
@@ -649,6 +749,8 @@ func (s *sim) stepBackup(in *inst) {
 		return
 	}
 	si, err := in.sm.GetSnapshot(1, uint64(in.applied))
+	// Backup writes the HyperLogLog cache back before it even queues the checkpoint
+	in.flushAt = append(in.flushAt, in.applied)
 	if err != nil {
 		s.lg("backup.fail", "%d %v", in.idx, err)
 		return
@@ -680,6 +782,7 @@ func (s *sim) stepRestore(in *inst) {
 		return
 	}
 	s.restores++
+	in.flushAt = append(in.flushAt, in.applied)
 	s.c.Probe("restore_at_cut")
 	s.c.Fault("restart")
 	s.lg("restore", "%d to=%d replay=(%d,%d]", in.idx, in.ckpt, in.ckpt, in.applied)
@@ -720,6 +823,7 @@ func (s *sim) stepReopen(in *inst) {
 		return
 	}
 	s.reopens++
+	in.flushAt = append(in.flushAt, in.applied)
 	s.c.Probe("reopen_at_cut")
 	s.c.Fault("restart")
 	s.lg("reopen", "%d pos=%d", in.idx, in.applied)
